@@ -6,6 +6,6 @@ EXPLANATION = ("The headline clause is a whole-algorithm equivalence over linked
                "every position, the alleles of every sample at every site, validity of the output and idempotence are compared "
                "with values recomputed from the table columns.")
 C_FUNCS = []
-BOUNDED = [{"name": "simplify_vs_tables", "module": "standins.c04_simplify", "timeout": 900}]
+BOUNDED = [{"name": "simplify_vs_tables", "module": "standins.c04_simplify", "timeout": 900, "asan": "thorough"}]
 UNVERIFIED = ["simplifier_* (bounded only)"]
 ASSUMPTIONS = []
